@@ -58,7 +58,9 @@ static void got_data(void *c)
 static void run_r(void)
 {
 	static char *argv[] = { "/bin/sh", "-c",
-		"echo hello-from-child; echo \"fd0:$(readlink /proc/$$/fd/0)\"; echo \"fd2:$(readlink /proc/$$/fd/2)\"", NULL };
+		"echo hello-from-child; echo \"fd0:$(readlink /proc/$$/fd/0)\"; echo \"fd2:$(readlink /proc/$$/fd/2)\"; "
+		/* the null device on fd 0 must be READABLE (end of file at once), on fd 2 writable */
+		"cat; echo \"stdin-read-rc:$?\"; echo x >&2; echo \"stderr-write-rc:$?\"", NULL };
 	int fd;
 
 	IV_POPEN_REQUEST_INIT(&req);
@@ -151,6 +153,10 @@ int main(void)
 		fail("type r: child's stdout is not connected to the descriptor");
 	if (strstr(out, "fd0:/dev/null\n") == NULL)
 		fail("type r: stdin of the child is not /dev/null");
+	if (strstr(out, "stdin-read-rc:0\n") == NULL)
+		fail("type r: the child could not read end-of-file from its standard input (null device not readable)");
+	if (strstr(out, "stderr-write-rc:0\n") == NULL)
+		fail("type r: the child could not write to its standard error");
 	if (strstr(out, "fd2:/dev/null\n") == NULL)
 		fail("type r: stderr of the child is not /dev/null");
 	if (waitpid(-1, NULL, WNOHANG) != -1 || errno != ECHILD)
